@@ -14,10 +14,15 @@ git diff -- dagrt > "$OUT/patch.diff"
 cp "$WT"/demo_$PID.py "$OUT/" 2>/dev/null; cp "$WT"/NOTES_$PID.md "$OUT/" 2>/dev/null
 echo "== suite with change:"; (cd "$WT" && PYTHONPATH="$WT" /venv/bin/python -m pytest -q -p no:cacheprovider test 2>&1 | tail -1) | tee "$OUT/.suite"
 echo "== demo with change:"; (cd "$WT" && PYTHONPATH="$WT" timeout 300 /venv/bin/python demo_$PID.py >/dev/null 2>&1; echo "exit $?") | tee "$OUT/.demo_with"
-git stash -q
+# (git stash is shared by all worktrees of a repository: reverse-apply the stored patch instead)
+git apply -R "$OUT/patch.diff"
 echo "== demo without change:"; (cd "$WT" && PYTHONPATH="$WT" timeout 300 /venv/bin/python demo_$PID.py >/dev/null 2>&1; echo "exit $?") | tee "$OUT/.demo_without"
-git stash pop -q
+git apply "$OUT/patch.diff"
 cd "$VERIF"
+if [ -n "${SCRATCH:-}" ]; then
+  # do not touch /repo (e.g. while a sweep is reading it): scratch copy + VERIF_REPO
+  python3 bin/seed_regress.py "$(basename "$OUT")"; exit 0
+fi
 git -C /repo apply "$OUT/patch.diff" || { echo "patch does not apply to /repo"; exit 2; }
 for c in $CHECKS; do
   echo "== check $c on /repo with the seeded change:"
